@@ -89,6 +89,58 @@ func HKDFNew(h func() hash.Hash, secret, salt, info []byte) io.Reader {
 	return &hkdfReader{id: id, secret: append([]byte{}, secret...), salt: append([]byte{}, salt...), info: append([]byte{}, info...)}
 }
 
+// HKDFExtract / HKDFExpand: the two-step form of the same construction. Both steps are
+// collision-free uninterpreted functions in 32-byte blocks (equal blocks imply equal
+// inputs), so Expand(Extract(secret, salt), info) determines (secret, salt, info) just as
+// HKDFNew does. A key derived through New and the same key derived through Extract+Expand
+// are different terms in the model (a tree is expected to use one form for one key).
+func HKDFExtract(h func() hash.Hash, secret, salt []byte) []byte {
+	id, size := "unknown-hash", 64
+	if mh, ok := h().(*ModelHash); ok {
+		id, size = mh.ID, mh.Size_
+	}
+	var prk []byte
+	for blk := 0; len(prk) < size; blk++ {
+		n := size - len(prk)
+		if n > 32 {
+			n = 32
+		}
+		prk = append(prk, verif.UF("HKDF-extract:"+id+":"+string(rune('0'+blk)), n, secret, salt)...)
+	}
+	return prk
+}
+
+type hkdfExpandReader struct {
+	id        string
+	prk, info []byte
+	stream    []byte
+	off       int
+}
+
+func (r *hkdfExpandReader) Read(p []byte) (int, error) {
+	for r.off+len(p) > len(r.stream) {
+		if len(r.stream) >= 64 {
+			panic("models: HKDF output beyond 64 bytes is not modelled")
+		}
+		blk := "0"
+		if len(r.stream) == 32 {
+			blk = "1"
+		}
+		r.stream = append(r.stream, verif.UF("HKDF-expand:"+r.id+":"+blk, 32, r.prk, r.info)...)
+	}
+	n := copy(p, r.stream[r.off:])
+	r.off += n
+	return n, nil
+}
+
+func HKDFExpand(h func() hash.Hash, prk, info []byte) io.Reader {
+	id := "unknown-hash"
+	if mh, ok := h().(*ModelHash); ok {
+		id = mh.ID
+	}
+	return &hkdfExpandReader{id: id, prk: append([]byte{}, prk...), info: append([]byte{}, info...)}
+}
+
 // ---- AEAD (ChaCha20-Poly1305) ----
 
 type sealRow struct {
